@@ -222,7 +222,7 @@ def run_property(prop: str, tier: str):
             errors.append('vacuous: every normal exit of %s is unreachable under its contract (contradictory requires / invariant)' % fn_)
     return {'functions': functions, 'n_obligations': n_obl, 'n_discharged': n_dis, 'failed': failed, 'unknown': unknown,
             'unsupported': unsupported, 'errors': errors, 'by_backend': by_backend, 'solver_seconds': round(solver_seconds, 2),
-            'samples': samples, 'assumed_contracts': assumed, 'unverified': unverified, 'proved_hashes': sorted(set(x for x in proved_hashes if x)), 'cross_check': cross, 'proved_now': {k: sorted(v) for k, v in proved_now.items()}, 'wall_s': round(time.time() - t0, 2)}
+            'samples': samples, 'assumed_contracts': assumed, 'assumed_notes': {k: ' '.join((reg.contracts[k].note or '').split())[:400] for k in assumed}, 'unverified': unverified, 'proved_hashes': sorted(set(x for x in proved_hashes if x)), 'cross_check': cross, 'proved_now': {k: sorted(v) for k, v in proved_now.items()}, 'wall_s': round(time.time() - t0, 2)}
 
 
 def evidence(prop, tier, seed, pr, fl, violations, known_lines, undecided, checker_errors, wall):
@@ -238,7 +238,7 @@ def evidence(prop, tier, seed, pr, fl, violations, known_lines, undecided, check
         cov.update({
             'obligations': pr['n_obligations'], 'discharged': pr['n_discharged'],
             'checker_cmd': './check %s --tier %s' % (prop, tier),
-            'trusted_base': TRUSTED_BASE + ['assumed contract: ' + k for k in pr['assumed_contracts']] + ['unverified: ' + u for u in pr.get('unverified', [])],
+            'trusted_base': TRUSTED_BASE + ['assumed contract: ' + k + ((' — ' + pr['assumed_notes'][k]) if pr.get('assumed_notes', {}).get(k) else '') for k in pr['assumed_contracts']] + ['unverified: ' + u for u in pr.get('unverified', [])],
             'functions_under_contract': pr['functions'], 'by_backend': pr['by_backend'],
             'solver_seconds': pr['solver_seconds'],
             'undischarged': [f['name'] for f in pr['failed']] + [u['name'] for u in pr['unknown']],
